@@ -18,7 +18,7 @@
 import Scico.Proofs.ProxGroup
 import Scico.Proofs.ProxSep
 import Scico.Proofs.ProxNonconvex
-import Scico.Proofs.ProxL1L2
+import Scico.Proofs.ProxL1L2C
 
 set_option linter.unusedSectionVars false
 
@@ -439,6 +439,12 @@ theorem C02_sqL2SqAbs {lam scale : ℝ} (hlam : 0 < lam) (hs : 0 ≤ scale) (w y
     gives objective `0` against `-½` at `e₁`.) -/
 theorem C02_l1l2 {lam beta : ℝ} (hlam : 0 < lam) (hb : 0 ≤ beta) (v : Fin n → ℝ) :
     IsGMin Set.univ (l1l2Fn beta) lam (toE v) (toE (l1l2Prox beta v lam)) := l1l2_min hlam hb v
+
+/-- **`L1MinusL2Norm.prox`, complex input**: the code works with the moduli and phases of `v` only
+    (`l1l2ProxC` = the real map on `|v|`, times the phases); it is a global minimiser of
+    `lam(Σ|x_i| - beta‖x‖₂) + ½‖x-v‖²` on `ℂⁿ`, for every `beta ≥ 0` and every `v`. -/
+theorem C02_l1l2_complex {lam beta : ℝ} (hlam : 0 < lam) (hb : 0 ≤ beta) (v : Fin n → ℝ × ℝ) :
+    IsGMin Set.univ (l1l2FnC beta) lam (toCn v) (toCn (l1l2ProxC beta v lam)) := l1l2_min_complex hlam hb v
 
 end Nonconvex
 
